@@ -517,3 +517,53 @@ def shrink(case, still_fails, budget=40):
                     del c["builds"][bi]["use"][ui]
                     changed |= attempt(c)
     return best
+
+
+# ----------------------------------------------------------------------------- histories over generated programs
+def spec_history(spec, tops, custom_keys=()):
+    """A program of the C02 spec language (functions, If/Loop bodies, inlined models, mixed versions ...) realised
+    ONCE and built len(tops) times over the same Vars; build k has an Identity of module v<tops[k]> on its first
+    output (None = the outputs as they are). -> per-build records like judge_history (values are compared with the
+    first returned build of the same history: the programs differ only by an Identity)."""
+    import spox
+    from harness import lib_c02c14 as L
+
+    recs = []
+    with warnings.catch_warnings():
+        warnings.simplefilter("ignore")
+        try:
+            inputs, outputs = L.realise(spec)
+        except Exception as e:  # noqa: BLE001
+            return [{"bi": 0, "status": "err", "err": f"realise: {type(e).__name__}: {str(e)[:200]}", "bad": []}]
+        feeds = L.rand_feeds(spec, __import__("random").Random(0))
+        base = None
+        for bi, top in enumerate(tops):
+            rec = {"bi": bi, "status": "ok", "bad": []}
+            try:
+                outs = dict(outputs)
+                if top is not None:
+                    first = next(iter(outs))
+                    outs[first] = _opmod(top).identity(outs[first])
+                m = spox.build(inputs, outs, drop_unused_inputs=bool(spec.get("drop")))
+            except Exception as e:  # noqa: BLE001 - raising is an accepted outcome
+                rec.update(status="err", err=f"{type(e).__name__}: {str(e)[:300]}")
+                recs.append(rec)
+                continue
+            rec["bad"] = list(L.judge_model(m, custom_keys=custom_keys))
+            used = set(L.used_function_keys(m))
+            if not rec["bad"] and not (used & set(custom_keys)):
+                try:
+                    got = run_ort_noopt(m, feeds)
+                except Exception:  # noqa: BLE001 - (ORT refuses some valid nested-function models: judged by judge_model)
+                    got = None
+                if got is not None and base is None:
+                    base = got
+                elif got is not None:
+                    for name, w in base.items():
+                        g = got.get(name)
+                        if g is None or g.shape != w.shape or not np.allclose(g, w, rtol=1e-5, atol=1e-6, equal_nan=True):
+                            rec["bad"].append(("values-vs-fresh", f"output {name}: build #{bi} gives "
+                                               f"{None if g is None else g.tolist()}, the first build {w.tolist()}"))
+                            break
+            recs.append(rec)
+    return recs
